@@ -8,13 +8,13 @@ From Verif Require Import lib.Wire c03.Int64 c03.Model c03.Spec c03.Proofs_Int64
      c03.Proofs_Frames3 c03.Proofs_Kill c03.Proofs_OpsMem c03.Proofs_Done c03.Proofs_OpsDone c03.Proofs_OpsNew
      c03.Proofs_OpsOpen c03.Proofs_Hist c03.Proofs_Mon c03.Proofs_Link2 c03.Proofs_Transfer c03.Proofs_OpsRepar
      c03.Proofs_SetPeer c03.Proofs_Hist2 c03.Proofs_Mon2 c03.Proofs_Keys c03.Proofs_Refs c03.Proofs_RefInv c03.Proofs_GC
-     c03.Proofs_Prio.
+     c03.Proofs_Prio c03.Proofs_Cap c03.Proofs_CapInv.
 Import ListNotations.
 Local Open Scope Z_scope.
 
 (* the simulation invariant with what gc needs on top *)
 Definition InvG (c : config) (st : state) (a : astate) : Prop :=
-  InvL c st a /\ nd (scopes st) /\ RefInv (scopes st) a /\ AShape a.
+  InvL c st a /\ nd (scopes st) /\ RefInv (scopes st) a /\ AShape a /\ CapInv c st a.
 
 (* the operation language: View* on scopes that can be viewed, Done on handles *)
 Definition op_shape (o : op) : bool := match o with OGC => true | _ => shape2 o end.
@@ -69,12 +69,14 @@ Qed.
 Theorem step_full : forall c st a o,
   cfg_ok c -> InvG c st a -> wf_opF c st a o -> InvG c (fst (step c st o)) (anextT c st a o).
 Proof.
-  intros c st a o LO (IL & Hn & R & A) Wf. pose proof (wf_shape c st a o Wf) as Sh.
+  intros c st a o LO (IL & Hn & R & A & Ci) Wf. pose proof (wf_shape c st a o Wf) as Sh.
+  assert (Cs : CapInv c (fst (step c st o)) (anextT c st a o)).
+  { apply (cap_step c st a o LO IL Ci). destruct o; exact Wf. }
   destruct o; try (cbn [wf_opF] in Wf;
     (split; [apply step_inv2; assumption|]; split; [apply nd_step; exact Hn|];
-     split; [apply ref_step; assumption | apply ashape_step; assumption])).
-  rewrite anextT_gc. cbn [step fst]. destruct IL as [I L].
-  destruct (gc_inv c st a LO I L Hn R A) as (I' & L' & Hn' & R'). split; [split; assumption|]. split; [exact Hn'|]. split; assumption.
+     split; [apply ref_step; assumption | split; [apply ashape_step; assumption | exact Cs]])).
+  rewrite anextT_gc in *. cbn [step fst] in *. destruct IL as [I L].
+  destruct (gc_inv c st a LO I L Hn R A) as (I' & L' & Hn' & R'). split; [split; assumption|]. split; [exact Hn'|]. split; [exact R'|]. split; assumption.
 Qed.
 
 Fixpoint wf_histF (c : config) (st : state) (a : astate) (ops : list op) : Prop :=
@@ -86,7 +88,7 @@ Fixpoint wf_histF (c : config) (st : state) (a : astate) (ops : list op) : Prop 
 Lemma init_invG : forall c, cfg_ok c -> InvG c (init_state c) astate0.
 Proof.
   intros c LO. split; [split; [apply init_inv, LO | apply init_link]|]. split; [apply nd_init|].
-  split; [intros t Ht; unfold nrefs; cbn; unfold refz; destruct (get _ t) as [sc|] eqn:G; [|lia]|intros x h G; discriminate].
+  split; [intros t Ht; unfold nrefs; cbn; unfold refz; destruct (get _ t) as [sc|] eqn:G; [|lia]|split; [intros x h G; discriminate | apply init_capinv]].
   destruct t; try discriminate; cbn in G; discriminate.
 Qed.
 
@@ -114,8 +116,8 @@ Proof.
   rewrite anextT_gc. cbn [step astep]. exists [], []. split; [reflexivity | intros cand []].
 Qed.
 
-(* the extra checks proved so far: the priority threshold *)
-Definition ck_proved (ck : checks) : Prop := ck_just ck = false /\ ck_cap ck = false.
+(* the extra checks proved: the priority threshold and the per-subnet cap *)
+Definition ck_proved (ck : checks) : Prop := ck_just ck = false.
 
 Lemma prio_step : forall c st a m t sz prio, cfg_ok c -> InvG c st a -> (forall x, ostat m x = use_of (scopes st) x) ->
   wf_opF c st a (OReserve t sz prio) ->
@@ -137,7 +139,7 @@ Theorem full_from : forall ck c ops st a m i, ck_proved ck ->
   forallb op_shape ops = true -> callers_run c a m i (model_trace c st ops) = None ->
   mon_run_gen ck c a m i (model_trace c st ops) = [] /\ wf_histF c st a ops.
 Proof.
-  intros ck c ops. induction ops as [|o r IH]; intros st a m i (Kj & Kc) LO IG L Sh Cr; [split; [reflexivity | exact Logic.I]|].
+  intros ck c ops. induction ops as [|o r IH]; intros st a m i Kj LO IG L Sh Cr; [split; [reflexivity | exact Logic.I]|].
   cbn [forallb] in Sh. apply andb_true_iff in Sh. destruct Sh as [Sh1 Sh2].
   cbn [model_trace wf_histF] in *. pose proof (astep_pickedF c st a o LO IG) as Hd.
   pose proof (step_full c st a o LO IG) as Hi.
@@ -147,11 +149,14 @@ Proof.
             forall y, In y (areach (anextT c st a o) t) ->
             l_mem (a_limit c (anextT c st a o) y) = max_int64 \/ mem (ostat m' y) <= prio_threshold (a_limit c (anextT c st a o) y) prio).
   { intros t sz prio -> Wf. apply (prio_step c st a m t sz prio LO IG L Wf). }
-  destruct (step c st o) as [st' cls] eqn:Es. cbn [fst] in Hi.
+  assert (Cp : wf_opF c st a o -> forall i0 inb usefd ip, o = OOpenConn i0 inb usefd (Some ip) -> snd (step c st o) = 0 ->
+            cap_ok c (open_ips (anextT c st a o) false) ip = true).
+  { intros Wf. destruct IG as (IL & _ & _ & _ & Ci). apply (cap_step c st a o LO IL Ci). destruct o; exact Wf. }
+  destruct (step c st o) as [st' cls] eqn:Es. cbn [fst snd] in Hi, Cp.
   cbn [callers_run mon_run_gen] in *.
   destruct (caller_ok a o && no_overflow m o) eqn:C; [|discriminate].
   apply andb_true_iff in C. destruct C as [C1 C2].
-  pose proof (wfF_of_bool c st a m o IG L C1 C2 Sh1) as Wf. specialize (Hd Wf). specialize (Hi Wf).
+  pose proof (wfF_of_bool c st a m o IG L C1 C2 Sh1) as Wf. specialize (Hd Wf). specialize (Hi Wf). specialize (Cp Wf).
   destruct Hd as (pre & post & El & Hm).
   set (x := model_obs st st' o cls) in *. set (m' := apply_delta m (o_delta x)) in *.
   assert (L' : forall t, ostat m' t = use_of (scopes st') t) by (apply obs_follows, L).
@@ -170,9 +175,9 @@ Proof.
   { apply Ms.
     - intros _ t sz prio Eo C0 y Hy. apply (Pr t sz prio Eo Wf C0 m' L' y Hy).
     - intros X. congruence.
-    - intros X. congruence. }
+    - intros _ i0 inb usefd ip Eo C0. apply (Cp i0 inb usefd ip Eo C0). }
   rewrite Ms0 in Cr. rewrite Msk.
-  destruct (IH st' _ m' (i + 1) (conj Kj Kc) LO Hi L' Sh2 Cr) as [M Wh]. split; [exact M | split; [exact Wf | exact Wh]].
+  destruct (IH st' _ m' (i + 1) Kj LO Hi L' Sh2 Cr) as [M Wh]. split; [exact M | split; [exact Wf | exact Wh]].
 Qed.
 
 Lemma init_obs : forall c t, ostat [] t = use_of (scopes (init_state c)) t.
@@ -189,7 +194,7 @@ Theorem history_full : forall c ops, disciplined c ops ->
 Proof.
   intros c ops (Wc & Sh & Cr). pose proof (config_wf_ok c Wc) as LO.
   apply (history_full_from c ops _ _ LO (init_invG c LO)).
-  apply (full_from ck_core c ops (init_state c) astate0 [] 0 (conj eq_refl eq_refl) LO (init_invG c LO) (init_obs c) Sh Cr).
+  apply (full_from ck_core c ops (init_state c) astate0 [] 0 eq_refl LO (init_invG c LO) (init_obs c) Sh Cr).
 Qed.
 
 Theorem monitor_accepts_full : forall ck c ops, ck_proved ck -> disciplined c ops ->
@@ -199,9 +204,29 @@ Proof.
   apply (full_from ck c ops (init_state c) astate0 [] 0 K LO (init_invG c LO) (init_obs c) Sh Cr).
 Qed.
 
-Corollary monitor_accepts_prio : forall c ops, disciplined c ops ->
-  mon_run_gen (mkChecks true false false) c astate0 [] 0 (model_trace c (init_state c) ops) = [].
-Proof. intros c ops. exact (monitor_accepts_full (mkChecks true false false) c ops (conj eq_refl eq_refl)). Qed.
+Corollary monitor_accepts_prio_cap : forall c ops, disciplined c ops ->
+  mon_run_gen (mkChecks true false true) c astate0 [] 0 (model_trace c (init_state c) ops) = [].
+Proof. intros c ops. exact (monitor_accepts_full (mkChecks true false true) c ops eq_refl). Qed.
+
+(* "the number of simultaneously open connections from one IP subnet never exceeds
+   the configured per-subnet cap": whenever a connection with an IP endpoint is
+   admitted, the open connections governed by the same network prefix / by each
+   subnet rule's subnet of that endpoint - the new one included - are within the cap *)
+Corollary subnet_cap_full : forall c ops i inb usefd ip, disciplined c (ops ++ [OOpenConn i inb usefd (Some ip)]) ->
+  snd (step c (run c (init_state c) ops) (OOpenConn i inb usefd (Some ip))) = 0 ->
+  cap_ok c (open_ips (run_aT c (init_state c) astate0 (ops ++ [OOpenConn i inb usefd (Some ip)])) false) ip = true.
+Proof.
+  intros c ops i inb usefd ip (Wc & Sh & Cr) C0. pose proof (config_wf_ok c Wc) as LO.
+  destruct (full_from ck_core c _ (init_state c) astate0 [] 0 eq_refl LO (init_invG c LO) (init_obs c) Sh Cr) as [_ Wh].
+  assert (G : forall l st a, InvG c st a -> wf_histF c st a (l ++ [OOpenConn i inb usefd (Some ip)]) ->
+            snd (step c (run c st l) (OOpenConn i inb usefd (Some ip))) = 0 ->
+            cap_ok c (open_ips (run_aT c st a (l ++ [OOpenConn i inb usefd (Some ip)])) false) ip = true).
+  { induction l as [|o r IHl]; intros st a IG Wf C1; cbn [app run run_aT wf_histF] in *.
+    - destruct Wf as [W1 _]. destruct IG as (IL & _ & _ & _ & Ci).
+      apply (proj2 (cap_step c st a (OOpenConn i inb usefd (Some ip)) LO IL Ci W1) i inb usefd ip eq_refl C1).
+    - destruct Wf as [W1 W2]. apply IHl; [apply step_full; assumption | exact W2 | exact C1]. }
+  apply (G ops _ _ (init_invG c LO) Wh C0).
+Qed.
 
 Corollary usage_is_sum_full : forall c ops t, disciplined c ops ->
   use_of (scopes (run c (init_state c) ops)) t = usage_A (run_aT c (init_state c) astate0 ops) t.
